@@ -20,7 +20,21 @@ import types as _types
 from .core import AnalysisError, text
 
 # standard-library modules the evaluated code may use as they are (pure functions on the model's own values)
-SAFE_MODULES = {'re': _re_module, 'operator': _operator_module, 'itertools': _itertools_module}
+import posixpath as _posixpath_module
+import urllib.parse as _urlparse_module
+import urllib.request as _urlrequest_module
+
+
+class _NS:
+    """A name space standing for a package of which only the listed pure parts may be used."""
+
+    def __init__(self, **kw):
+        self.__dict__.update(kw)
+
+
+SAFE_MODULES = {'re': _re_module, 'operator': _operator_module, 'itertools': _itertools_module,
+                'os': _NS(path=_posixpath_module), 'urllib': _NS(parse=_urlparse_module, request=_NS(pathname2url=_urlrequest_module.pathname2url))}
+_SAFE_VALUES = (_re_module, _operator_module, _itertools_module, _posixpath_module, _urlparse_module)
 
 
 class _Return(Exception):
@@ -516,7 +530,7 @@ class Evaluator:
                     return lambda *a, **k: self.call_function(mem, a, k)
                 raise AnalysisError(f'class attribute {text(e)} not found')
             v = self.expr(e.value, env)
-            if isinstance(v, _types.ModuleType) and v in SAFE_MODULES.values():
+            if (isinstance(v, _types.ModuleType) and v in _SAFE_VALUES) or isinstance(v, _NS):
                 return getattr(v, e.attr)
             if isinstance(v, Opaque):
                 return Opaque(f'{v.desc}.{e.attr}')
@@ -617,7 +631,7 @@ class Evaluator:
                 if d in self.intrinsics:
                     return self.intrinsics[d](*args, **kwargs)
                 recv = self.expr(f.value, env)
-                if isinstance(recv, _types.ModuleType) and recv in SAFE_MODULES.values():
+                if (isinstance(recv, _types.ModuleType) and recv in _SAFE_VALUES) or isinstance(recv, _NS):
                     return getattr(recv, f.attr)(*args, **kwargs)
                 if isinstance(recv, (str, bytes, dict, list, tuple)) and f.attr in STR_METHODS:
                     r = getattr(recv, f.attr)(*args)
